@@ -29,7 +29,7 @@ static void feed(int id, hll_sketch& s, const std::vector<Item>& items) {
     for (; pos < end; pos++) { Coupon c; do_update(s, items[pos]); if (ref_coupon(items[pos], c)) cs.push_back(c); }
     if (cs.empty()) continue;
     View v = view(s, false);
-    Ev("Feed").i("id", id).raw("cs", coupons_json(cs)).i("mode", v.mode).b("empty", s.is_empty()).emit();
+    Ev("Feed").i("id", id).raw("cs", coupons_json(cs)).i("mode", v.mode).b("empty", s.is_empty()).raw("ph", phys(s, cs.back().addr, false)).emit();
   }
 }
 
@@ -206,6 +206,31 @@ int main(int argc, char** argv) {
       // final result in every type, then the estimates
       for (int t : T3) { if (high && t != 8 && t != T3[p]) continue; hll_sketch r = u.get_result(tt(t)); Ev e("UResult"); e.i("u", p).i("type", t).raw("r", proj(9, r)); scalars(e, u); e.emit(); }
       { Ev e("UEst"); e.i("u", p); est_fields(e, u); scalars(e, u); e.emit(); }
+    }
+    // results fed back as inputs: get_result(HLL_4 | HLL_6 | HLL_8) of the three unions become sketches 10..12 and are presented,
+    // with one of the original inputs, to a fourth union (lvalue / rvalue, random order, observers)
+    if (g.chance(60)) {
+      std::unique_ptr<hll_sketch> res[3];
+      for (int p = 0; p < 3; p++) {
+        int t = T3[(p + seg) % 3];
+        res[p].reset(new hll_sketch(un[p]->get_result(tt(t))));
+        Ev e("UResultAs"); e.i("u", p).i("type", t).i("dst", 10 + p).raw("r", proj(10 + p, *res[p])); scalars(e, *un[p]); e.emit();
+      }
+      uint8_t lg4 = (uint8_t)(high || g.chance(50) ? lgmax : g.range(minlgk, maxlgk));
+      hll_union u4(lg4);
+      { Ev e("UNew"); e.i("u", 3).i("lgmaxk", lg4); scalars(e, u4); e.emit(); }
+      std::vector<int> order = {10, 11, 12, (int)g.below(nin)};
+      for (size_t a = order.size(); a > 1; a--) std::swap(order[a - 1], order[g.below(a)]);
+      for (int sid : order) {
+        const hll_sketch& src = sid >= 10 ? *res[sid - 10] : *in[sid];
+        bool rvalue = g.chance(45);
+        if (rvalue) { hll_sketch tmp(src); u4.update(std::move(tmp)); } else u4.update(src);
+        { Ev e("UUpdate"); e.i("u", 3).i("src", sid).b("rvalue", rvalue); scalars(e, u4); e.emit(); }
+        if (g.chance(40)) { int t = T3[g.below(3)]; hll_sketch r = u4.get_result(tt(t)); Ev e("UResult"); e.i("u", 3).i("type", t).raw("r", proj(9, r)); scalars(e, u4); e.emit(); }
+        if (g.chance(25)) { Ev e("UEst"); e.i("u", 3); est_fields(e, u4); scalars(e, u4); e.emit(); }
+      }
+      { hll_sketch r = u4.get_result(HLL_8); Ev e("UResult"); e.i("u", 3).i("type", 8).raw("r", proj(9, r)); scalars(e, u4); e.emit(); }
+      { Ev e("UEst"); e.i("u", 3); est_fields(e, u4); scalars(e, u4); e.emit(); }
     }
     // the three unions side by side: composite estimates of unions whose contract states agree must agree
     {
